@@ -714,6 +714,24 @@ def late_family(tier):
                     yield c
 
 
+BULK_SIZES = {'quick': [99, 100, 101, 102, 150, 200, 201, 202, 257, 1000], 'thorough': [99, 100, 101, 102, 150, 200, 201, 202, 255, 256, 257, 1000, 1023, 1025, 5000]}
+
+
+def bulk_family(tier):
+    '''Round 9 (C01-17): populations of a hundred to a few thousand instances (sizes around 100, 200, 256, 1000) of two
+    classes, every B linked to an A, through every route -- anything a writer does per so-many instances shows here.'''
+    from mc.refs.relmodel import Assoc
+    classes = [('A', [('Id', 'unique_id'), ('Name', 'string')]), ('B', [('Id', 'unique_id'), ('A_Id', 'unique_id'), ('N', 'integer'), ('X', 'real')])]
+    ass = Assoc(1, 'B', ['A_Id'], True, True, '', 'A', ['Id'], False, True, '')
+    for n in BULK_SIZES[tier]:
+        na = max(1, n // 3)
+        rows = [('A', dict(Id=1000000 + j, Name="a'%d" % j)) for j in range(na)]
+        rows += [('B', dict(Id=2000000 + j, N=j - 5, X=j / 4.0 - 1.0)) for j in range(n - na)]
+        links = [(na + j, j % na, 1, '') for j in range(n - na) if j % 7]
+        yield dict(classes=classes, uniques=[('A', 'I1', ['Id']), ('B', 'I1', ['Id'])], assocs=[ass.as_json()], rows=rows, links=links,
+                   schema='bulk_%d' % n)
+
+
 def task(ctx, t):
     family, cases = t
     for case in cases:
@@ -731,15 +749,16 @@ def jsonable(case):
 def run(ctx):
     fams = [('values', list(values_family(ctx.tier))), ('links', list(links_family(ctx.tier))),
             ('keywords', list(keyword_family())), ('order', list(order_family())), ('history', list(history_family(ctx.tier))),
-            ('late', list(late_family(ctx.tier))), ('phrases', list(phrases_family(ctx.tier)))]
+            ('late', list(late_family(ctx.tier))), ('phrases', list(phrases_family(ctx.tier))), ('bulk', list(bulk_family(ctx.tier)))]
     tasks = []
     for name, cases in fams:
         cases = [jsonable(c) for c in cases]
         k = ctx.seed % 3
         cases = cases[k:] + cases[:k]
         ctx.count('family_' + name, len(cases))
-        for i in range(0, len(cases), 25):
-            tasks.append((name, cases[i:i + 25]))
+        step = 1 if name == 'bulk' else 25
+        for i in range(0, len(cases), step):
+            tasks.append((name, cases[i:i + step]))
     ctx.pmap(task, tasks)
     for name, cases in fams:
         ctx.sample(dict(family=name, case=jsonable(cases[len(cases) // 3])))
@@ -749,6 +768,7 @@ def run(ctx):
     ctx.require(ctx.n('family_late') >= 1000, 'too few populations created before their associations (%d)' % ctx.n('family_late'))
     ctx.require(ctx.n('family_phrases') >= 150, 'too few enumerated phrases (%d)' % ctx.n('family_phrases'))
     ctx.require(sum(1 for c in fams[1][1] if c['schema'].startswith('phrase_')) >= 200, 'too few populations under phrased associations')
+    ctx.require(ctx.n('family_bulk') >= 8, 'too few bulk populations (%d)' % ctx.n('family_bulk'))
     ctx.require(ctx.n('family_history') >= 300, 'too few histories (%d)' % ctx.n('family_history'))
 
 
